@@ -23,7 +23,12 @@ var c12Alphabet = []string{
 	"..a/x", "...", ".../y", "a/..b", "a/..b/c",
 	// a second branch whose directory names repeat those of the first
 	"b/b", "b/b/d",
+	// elements longer than what most file systems store (the statement has
+	// no length clause: the validator judges order and containment)
+	c12Long, "a/" + c12Long,
 }
+
+var c12Long = strings.Repeat("L", 256) + strings.Repeat("\xe9\x9b\xa8", 15)
 
 const (
 	kDir = iota
